@@ -535,17 +535,32 @@ func (refImpl) Gen(h *vh.H, i int) string {
 		ss = append(ss, s.kind+":"+dot(append(append([]string{}, pkg...), s.path...)))
 	}
 	pkgs := dot(pkg)
+	allPkgs := [][]string{pkg, tpkg}
 	if dot(tpkg) != dot(pkg) {
 		for k := 1; k <= len(tgt); k++ {
 			ss = append(ss, "m:"+dot(append(append([]string{}, tpkg...), tgt[:k]...)))
 		}
 		pkgs += "," + dot(tpkg)
+		// a third file, imported by the first: a SIBLING package `<parent of pkg>.<first component of tpkg>[.v1]`
+		// (its namespace captures the relative name of the target unless the printer writes the leading dot)
+		if len(pkg) >= 1 && len(tpkg) >= 1 && h.Chance(1, 3) {
+			k := h.Rng.IntN(len(pkg)) + 1 // parent prefix pkg[:k-1] .. pkg itself is prefix when k-1 == len(pkg)
+			sib := append(append([]string{}, pkg[:k-1]...), tpkg[0])
+			if h.Chance(1, 2) {
+				sib = append(sib, "v1")
+			}
+			if dot(sib) != dot(pkg) && dot(sib) != dot(tpkg) {
+				pkgs += "," + dot(sib)
+				allPkgs = append(allPkgs, sib)
+				h.Count("ref.gen-imported-sibling-package")
+			}
+		}
 	}
 	// a declaration may not have the name of a package (or of a prefix of one): protoc and
 	// protocompile reject such files
 	for _, s := range ss {
 		p := undotGo(s[2:])
-		for _, q := range [][]string{pkg, tpkg} {
+		for _, q := range allPkgs {
 			if len(p) <= len(q) && dot(q[:len(p)]) == dot(p) {
 				h.Count("ref.gen-rejected-name-is-package")
 				return ""
@@ -646,6 +661,7 @@ func (refImpl) Exec(h *vh.H, op string) string {
 	cross := dot(tpkg) != dot(pkg)
 	reg := &protoregistry.Files{}
 	var depFd protoreflect.FileDescriptor
+	var sibFds []protoreflect.FileDescriptor
 	main := buildFile("main.proto", pkg, local, firstMsg)
 	if cross {
 		dep := buildFile("dep.proto", tpkg, remote, "")
@@ -657,6 +673,27 @@ func (refImpl) Exec(h *vh.H, op string) string {
 		depFd = d
 		_ = reg.RegisterFile(d)
 		main.Dependency = []string{"dep.proto"}
+	}
+	// further imported files: one (empty) file per package of the op that is neither the context's nor the target's
+	if f[6] != "-" {
+		for i, q := range strings.Split(f[6], ",") {
+			if q == f[2] || q == f[4] {
+				continue
+			}
+			sib := &descriptorpb.FileDescriptorProto{Name: proto.String(fmt.Sprintf("sib%d.proto", i)), Syntax: proto.String("proto3")}
+			if q != "-" {
+				sib.Package = proto.String(q)
+			}
+			d, err := protodesc.NewFile(sib, reg)
+			if err != nil {
+				h.Count("ref.invalid-config")
+				return "skip"
+			}
+			_ = reg.RegisterFile(d)
+			sibFds = append(sibFds, d)
+			main.Dependency = append(main.Dependency, sib.GetName())
+			h.Count("ref.imported-sibling-package")
+		}
 	}
 	fd, err := protodesc.NewFile(main, reg)
 	if err != nil {
@@ -737,6 +774,12 @@ func (refImpl) Exec(h *vh.H, op string) string {
 		var deps linker.Files
 		if cross {
 			lf, err := linker.NewFileRecursive(depFd)
+			if err == nil {
+				deps = append(deps, lf)
+			}
+		}
+		for _, sd := range sibFds {
+			lf, err := linker.NewFileRecursive(sd)
 			if err == nil {
 				deps = append(deps, lf)
 			}
